@@ -25,7 +25,9 @@ RULE = ("seeded random document specs over all generator dimensions (tables 0..4
         "page_by/subline_by/group_by/new_page/pageby_row/pageby_header, attribute shapes scalar/row/matrix, "
         "integer and half-point font sizes; multi-section and figure documents) plus the full product "
         "header mode x strategy x footnote mode x source mode; a case is one spec accepted at construction; "
-        "non-trivial = has >=1 data row or a figure and >=2 optional components; distinct by spec hash")
+        "non-trivial = has >=1 data row or a figure and >=2 optional components; distinct by spec hash. Extra "
+        "workload: the repository's own 423 tests run with a reader attached to rtf_encode (documents inside the "
+        "quantifier must be well-formed too)")
 ASSUMPTIONS = ["the independent reader (rtfmon/reader.py, self-tested by setup_cmd) defines well-formedness",
                "unknown-but-well-formed control words (\\ffroman, \\totalpage) are not lexical errors"]
 DECIDING = ["docs_parsed", "rows_parsed", "row_hook_calls"]
@@ -40,6 +42,8 @@ def plan(tier, seed):
     per = 170 if tier == "quick" else 3600
     descs = [{"kind": "random", "n": per} for _ in range(15)]
     descs.append({"kind": "product", "reps": 1 if tier == "quick" else 6})
+    # the repository's own tests as a workload: every document they encode is read back too
+    descs.append({"kind": "repo_tests", "timeout": 1200})
     return descs
 
 
@@ -198,7 +202,43 @@ def gen_product(rng, reps):
             yield spec
 
 
+def run_repo_tests(ctx):
+    import json
+    import os
+    import subprocess
+    import sys
+    import tempfile
+    from ..run import HERE, REPO
+    out = tempfile.mktemp(prefix="rtfmon-plugin-", suffix=".json")
+    env = dict(os.environ, RTFMON_PLUGIN_OUT=out,
+               PYTHONPATH=HERE + os.pathsep + os.path.join(REPO, "src"))
+    p = subprocess.run([sys.executable, "-m", "pytest", "-q", "-p", "no:cacheprovider", "-p", "rtfmon.pytest_plugin",
+                        "-x", "tests"], cwd=REPO, env=env, stdout=subprocess.PIPE, stderr=subprocess.STDOUT,
+                       timeout=1000)
+    if not os.path.exists(out):
+        ctx.notes.append("repo test workload produced no observations: " + p.stdout.decode()[-300:])
+        ctx.count("repo_tests_workload_unavailable")
+        return
+    d = json.load(open(out))
+    os.remove(out)
+    ctx.count("repo_tests_documents_read_back", d["parsed"])
+    ctx.count("repo_tests_documents_in_quantifier", d["in_quantifier"])
+    ctx.count("repo_tests_rows_parsed", d["rows"])
+    ctx.count("repo_tests_with_encodes", d["tests_with_encodes"])
+    ctx.count("docs_parsed", d["parsed"])
+    ctx.count("rows_parsed", d["rows"])
+    for v in d["violations"]:
+        ctx.case(("repo-test", v["test"]), True)
+        ctx.violation(f"document encoded by repository test {v['test']} is malformed: {v['problems'][:2]}",
+                      {"repo_test": v["test"]}, {"problems": v["problems"]})
+    for e in d["errors"]:
+        ctx.notes.append("plugin monitor error: " + e)
+
+
 def run_shard(desc, ctx):
+    if desc["kind"] == "repo_tests":
+        run_repo_tests(ctx)
+        return
     rng = random.Random(desc["seed"])
     hook = H.RowHook().install()
     try:
